@@ -134,7 +134,7 @@ def truth(av):
 class Flow:
     def __init__(self, fn, tracked=(), assume=(), switch_assume=None, markers=None, classify=None,
                  noret=NORET, on_event=None, on_edge=None, init_env=None, start=None, max_nodes=200000,
-                 track_atoms=None, track_markers=()):
+                 track_atoms=None, track_markers=(), track_history=False):
         self.fn = fn
         self.tracked = set(tracked)
         self.assume = list(assume)
@@ -149,6 +149,7 @@ class Flow:
         self.track_atoms = dict(track_atoms or {})      # name -> matcher ; env['@name'] = last value (path-sensitive)
         self.track_markers = set(track_markers)         # marker names kept path-sensitively as env['#name'] = 1
         self.track_mentions = {}
+        self.track_history = track_history             # tracked atoms keep their last value even if operands were written since
         self.max_nodes = max_nodes
         self.IN = {}
         self.pred = {}
@@ -286,7 +287,7 @@ class Flow:
                     self._kill(facts, kills)
                     return False
         self._kill(facts, kills)
-        if kills and self.track_atoms:
+        if kills and self.track_atoms and not self.track_history:
             for name in list(self.track_atoms):
                 if ("@" + name) in env and (self.track_mentions.get(name, set()) & kills):
                     del env["@" + name]
